@@ -274,6 +274,15 @@ def addExport (st : St) (name : Str) (v : Val) : Except Diag St :=
   if alHas name st.exports then .error (.duplicateExport name)
   else .ok { st with exports := st.exports ++ [(name, v.prov, v.kind)] }
 
+/-- "Spread exports will only create new exports that do not conflict with previously exported
+    items": the exports of the instance in order, each under its own name unless that name is
+    already exported; the flag tells whether anything was exported. -/
+def spreadExports (v : Val) : List (Str × Kind) → List (Str × Prov × Kind) → List (Str × Prov × Kind) × Bool
+  | [], exports => (exports, false)
+  | (n, k) :: rest, exports =>
+    if alHas n exports then spreadExports v rest exports
+    else ((spreadExports v rest (exports ++ [(n, Prov.exportOf v.prov n, k)])).1, true)
+
 def evalStmt (lib : Lib) (self : Str) (st : St) : Stmt → Except Diag St
   | .imp id as ty =>
     match importKind lib ty with
@@ -304,10 +313,9 @@ def evalStmt (lib : Lib) (self : Str) (st : St) : Stmt → Except Diag St
       match v.kind.instExports with
       | none => .error (.notInstance .spread)
       | some es =>
-        -- "Spread exports will only create new exports that do not conflict with previously exported items"
-        let fresh := es.toList.filter (fun (n, _) => !alHas n st.exports)
-        if fresh.isEmpty then .error .spreadExportNoEffect
-        else .ok { st with exports := st.exports ++ fresh.map fun (n, k) => (n, Prov.exportOf v.prov n, k) }
+        let (exports, any) := spreadExports v es.toList st.exports
+        if !any then .error .spreadExportNoEffect
+        else .ok { st with exports := exports }
 
 def evalStmts (lib : Lib) (self : Str) (st : St) : List Stmt → Except Diag St
   | [] => .ok st
